@@ -185,6 +185,14 @@ func (n *Node) Simulate(signer *Account, gas uint64, msgs ...sdk.Msg) (*sdk.Resu
 	return res, err
 }
 
+// SimulateForged: a gas estimation of a transaction whose messages name `named` as signer while the transaction is
+// signed with `forger`'s key (account number and sequence are public). Simulation skips signature verification.
+func (n *Node) SimulateForged(forger, named *Account, gas uint64, msgs ...sdk.Msg) (*sdk.Result, error) {
+	num, seq := n.accountNumSeq(n.Ctx(), named)
+	_, res, err := n.App.Simulate(n.sign(forger, num, seq, gas, msgs...))
+	return res, err
+}
+
 func (n *Node) mustBlock() { n.Block(nil, 5*time.Second) }
 
 func (n *Node) mustTxs(txs []*PendingTx) *abci.ResponseFinalizeBlock {
